@@ -48,6 +48,11 @@ Fixpoint ndedup (l : list N) : list N :=
 Fixpoint has_dup (l : list N) : bool :=
   match l with [] => false | x :: r => nmem x r || has_dup r end.
 
+(* registry NodeStatus status.go:14-34: expiration processed, freeze end epoch
+   (0 = not frozen), "election eligible after" is the invalid epoch (set at a
+   new / expired re-registration; other applications set real values) *)
+Record status := mkStatus { st_expired : bool; st_freeze : N; st_inelig : bool }.
+
 (* ---------- state ---------- *)
 Record state := mkSt {
   s_ents   : list (N * entity);   (* 0x10 signed entities, by id *)
@@ -63,22 +68,24 @@ Record state := mkSt {
   s_susp   : list (N * runtime);  (* 0x18 suspended runtimes *)
   s_rtclaims : list (N * N);      (* staking: (account, runtime id) for registry.RegisterRuntime.<id>;
                                      account 2*e = entity e, 2*r+1 = runtime r's own account *)
-  s_nthr   : list (N * list N) }. (* threshold kinds stored with the node claim of node id *)
+  s_nthr   : list (N * list N);   (* threshold kinds stored with the node claim of node id *)
+  s_status : list (N * status) }. (* 0x15 node status, by node id *)
 
-Definition st0 : state := mkSt [] [] [] [] [] [] [] 0 [] [] [] [].
+Definition st0 : state := mkSt [] [] [] [] [] [] [] 0 [] [] [] [] [].
 
-Definition with_nodes s v := mkSt (s_ents s) v (s_byent s) (s_addr s) (s_keymap s) (s_rtown s) (s_claims s) (s_epoch s) (s_rts s) (s_susp s) (s_rtclaims s) (s_nthr s).
-Definition with_ents s v := mkSt v (s_nodes s) (s_byent s) (s_addr s) (s_keymap s) (s_rtown s) (s_claims s) (s_epoch s) (s_rts s) (s_susp s) (s_rtclaims s) (s_nthr s).
-Definition with_byent s v := mkSt (s_ents s) (s_nodes s) v (s_addr s) (s_keymap s) (s_rtown s) (s_claims s) (s_epoch s) (s_rts s) (s_susp s) (s_rtclaims s) (s_nthr s).
-Definition with_addr s v := mkSt (s_ents s) (s_nodes s) (s_byent s) v (s_keymap s) (s_rtown s) (s_claims s) (s_epoch s) (s_rts s) (s_susp s) (s_rtclaims s) (s_nthr s).
-Definition with_keymap s v := mkSt (s_ents s) (s_nodes s) (s_byent s) (s_addr s) v (s_rtown s) (s_claims s) (s_epoch s) (s_rts s) (s_susp s) (s_rtclaims s) (s_nthr s).
-Definition with_rtown s v := mkSt (s_ents s) (s_nodes s) (s_byent s) (s_addr s) (s_keymap s) v (s_claims s) (s_epoch s) (s_rts s) (s_susp s) (s_rtclaims s) (s_nthr s).
-Definition with_claims s v := mkSt (s_ents s) (s_nodes s) (s_byent s) (s_addr s) (s_keymap s) (s_rtown s) v (s_epoch s) (s_rts s) (s_susp s) (s_rtclaims s) (s_nthr s).
-Definition with_epoch s v := mkSt (s_ents s) (s_nodes s) (s_byent s) (s_addr s) (s_keymap s) (s_rtown s) (s_claims s) v (s_rts s) (s_susp s) (s_rtclaims s) (s_nthr s).
-Definition with_rts s v := mkSt (s_ents s) (s_nodes s) (s_byent s) (s_addr s) (s_keymap s) (s_rtown s) (s_claims s) (s_epoch s) v (s_susp s) (s_rtclaims s) (s_nthr s).
-Definition with_susp s v := mkSt (s_ents s) (s_nodes s) (s_byent s) (s_addr s) (s_keymap s) (s_rtown s) (s_claims s) (s_epoch s) (s_rts s) v (s_rtclaims s) (s_nthr s).
-Definition with_rtclaims s v := mkSt (s_ents s) (s_nodes s) (s_byent s) (s_addr s) (s_keymap s) (s_rtown s) (s_claims s) (s_epoch s) (s_rts s) (s_susp s) v (s_nthr s).
-Definition with_nthr s v := mkSt (s_ents s) (s_nodes s) (s_byent s) (s_addr s) (s_keymap s) (s_rtown s) (s_claims s) (s_epoch s) (s_rts s) (s_susp s) (s_rtclaims s) v.
+Definition with_ents s v := mkSt v (s_nodes s) (s_byent s) (s_addr s) (s_keymap s) (s_rtown s) (s_claims s) (s_epoch s) (s_rts s) (s_susp s) (s_rtclaims s) (s_nthr s) (s_status s).
+Definition with_nodes s v := mkSt (s_ents s) v (s_byent s) (s_addr s) (s_keymap s) (s_rtown s) (s_claims s) (s_epoch s) (s_rts s) (s_susp s) (s_rtclaims s) (s_nthr s) (s_status s).
+Definition with_byent s v := mkSt (s_ents s) (s_nodes s) v (s_addr s) (s_keymap s) (s_rtown s) (s_claims s) (s_epoch s) (s_rts s) (s_susp s) (s_rtclaims s) (s_nthr s) (s_status s).
+Definition with_addr s v := mkSt (s_ents s) (s_nodes s) (s_byent s) v (s_keymap s) (s_rtown s) (s_claims s) (s_epoch s) (s_rts s) (s_susp s) (s_rtclaims s) (s_nthr s) (s_status s).
+Definition with_keymap s v := mkSt (s_ents s) (s_nodes s) (s_byent s) (s_addr s) v (s_rtown s) (s_claims s) (s_epoch s) (s_rts s) (s_susp s) (s_rtclaims s) (s_nthr s) (s_status s).
+Definition with_rtown s v := mkSt (s_ents s) (s_nodes s) (s_byent s) (s_addr s) (s_keymap s) v (s_claims s) (s_epoch s) (s_rts s) (s_susp s) (s_rtclaims s) (s_nthr s) (s_status s).
+Definition with_claims s v := mkSt (s_ents s) (s_nodes s) (s_byent s) (s_addr s) (s_keymap s) (s_rtown s) v (s_epoch s) (s_rts s) (s_susp s) (s_rtclaims s) (s_nthr s) (s_status s).
+Definition with_epoch s v := mkSt (s_ents s) (s_nodes s) (s_byent s) (s_addr s) (s_keymap s) (s_rtown s) (s_claims s) v (s_rts s) (s_susp s) (s_rtclaims s) (s_nthr s) (s_status s).
+Definition with_rts s v := mkSt (s_ents s) (s_nodes s) (s_byent s) (s_addr s) (s_keymap s) (s_rtown s) (s_claims s) (s_epoch s) v (s_susp s) (s_rtclaims s) (s_nthr s) (s_status s).
+Definition with_susp s v := mkSt (s_ents s) (s_nodes s) (s_byent s) (s_addr s) (s_keymap s) (s_rtown s) (s_claims s) (s_epoch s) (s_rts s) v (s_rtclaims s) (s_nthr s) (s_status s).
+Definition with_rtclaims s v := mkSt (s_ents s) (s_nodes s) (s_byent s) (s_addr s) (s_keymap s) (s_rtown s) (s_claims s) (s_epoch s) (s_rts s) (s_susp s) v (s_nthr s) (s_status s).
+Definition with_nthr s v := mkSt (s_ents s) (s_nodes s) (s_byent s) (s_addr s) (s_keymap s) (s_rtown s) (s_claims s) (s_epoch s) (s_rts s) (s_susp s) (s_rtclaims s) v (s_status s).
+Definition with_status s v := mkSt (s_ents s) (s_nodes s) (s_byent s) (s_addr s) (s_keymap s) (s_rtown s) (s_claims s) (s_epoch s) (s_rts s) (s_susp s) (s_rtclaims s) (s_nthr s) v.
 
 (* ---------- index updates as explicit operation lists ---------- *)
 Inductive kop := KDel (k : N) | KSet (k v : N).
@@ -121,7 +128,8 @@ Definition addr_ops (addr : N -> N) (ex : option node) (n : node) : list kop :=
 Inductive code :=
 | COk | CInvalidSignature | CInvalidArgument | CIncorrectTxSigner | CNoSuchEntity
 | CNodeExpired | CNodeUpdateNotAllowed | CEntityHasNodes | CEntityHasRuntimes | COther
-| CForbidden | CRuntimeUpdateNotAllowed | CNoSuchRuntime.
+| CForbidden | CRuntimeUpdateNotAllowed | CNoSuchRuntime
+| CNoSuchNode | CBadEntityForNode | CNodeCannotBeUnfrozen.
 
 (* ---------- operations ---------- *)
 Inductive op :=
@@ -142,7 +150,11 @@ Inductive op :=
    transaction signed by key k, 2*r+1 for a message emitted by runtime r *)
 | TRegRuntime (caller : N) (rt : runtime)
 (* environment: the roothash application suspends a runtime (state.SuspendRuntime) *)
-| LSuspendRt (r : N).
+| LSuspendRt (r : N)
+(* UnfreezeNode transaction signed by [txs] *)
+| TUnfreeze (txs : N) (id : N)
+(* environment: another application (slashing, liveness) freezes a node until epoch [e] *)
+| LFreeze (id : N) (e : N).
 
 Section WithParams.
   Variable addr : N -> N.
@@ -162,6 +174,7 @@ Section WithParams.
     let s := with_nodes s (adel (n_id n) (s_nodes s)) in
     let s := with_byent s (pdel (n_ent n, n_id n) (s_byent s)) in
     let s := with_addr s (adel (addr (n_cons n)) (s_addr s)) in
+    let s := with_status s (adel (n_id n) (s_status s)) in            (* state.go:629 *)
     with_keymap s (kapply_all [KDel (n_cons n); KDel (n_p2p n); KDel (n_tls n); KDel (n_vrf n)] (s_keymap s)).
 
   (* NodeBySubKey, state.go:497-512: key map lookup, then the node record *)
@@ -301,7 +314,14 @@ Section WithParams.
                  then admission_check s n (n_rts n)                    (* 265-269 *)
             else if n_exp n <=? s_epoch s then CNodeExpired            (* 278 *)
             else match aget (n_id n) (s_nodes s) with
-                 | Some cur => verify_node_update (s_epoch s) cur n    (* 366 *)
+                 | Some cur =>
+                     match verify_node_update (s_epoch s) cur n with   (* 366 *)
+                     | COk => match aget (n_id n) (s_status s) with    (* 389-396: status of an existing node *)
+                              | Some _ => COk
+                              | None => CInvalidArgument
+                              end
+                     | c => c
+                     end
                  | None => COk
                  end
         | c => c
@@ -335,8 +355,19 @@ Section WithParams.
         else s
     | None => s
     end.
+  (* registry.go:219-232: the status of an expired node gets its
+     expiration-processed flag.  In the code this happens in the same loop
+     iteration as the removal decision; it depends only on the node's own
+     record and status, so it is modelled as a first pass. *)
+  Definition mark_one (e : N) (s : state) (id : N) : state :=
+    match aget id (s_nodes s), aget id (s_status s) with
+    | Some n, Some st =>
+        if n_exp n <? e then with_status s (aset id (mkStatus true (st_freeze st) (st_inelig st)) (s_status s))
+        else s
+    | _, _ => s
+    end.
   Definition epoch_change (e : N) (s : state) : state :=
-    fold_left (epoch_one e) (sorted_ids s) (with_epoch s e).
+    fold_left (epoch_one e) (sorted_ids s) (fold_left (mark_one e) (sorted_ids s) (with_epoch s e)).
 
   (* threshold kinds of a node claim, StakeThresholdsForNode api.go:1547-1598
      (per-runtime constants are zero): 1 validator, 2 compute, 3 observer, 4 key manager *)
@@ -421,6 +452,33 @@ Section WithParams.
         else with_rtown s (padd (r_ent rt, r_id rt) (pdel (r_ent old, r_id rt) (s_rtown s)))
     end.
 
+  (* transactions.go:389-419: a new node gets an empty status, an expired one
+     keeps its status with the expiration flag reset; both become ineligible
+     for election; a renewal leaves the status alone (beacon backend is not VRF) *)
+  Definition reg_status (s : state) (n : node) : list (N * status) :=
+    match aget (n_id n) (s_nodes s) with
+    | None => aset (n_id n) (mkStatus false 0 true) (s_status s)
+    | Some cur =>
+        if n_exp cur <? s_epoch s then
+          match aget (n_id n) (s_status s) with
+          | Some st => aset (n_id n) (mkStatus false (st_freeze st) true) (s_status s)
+          | None => s_status s
+          end
+        else s_status s
+    end.
+
+  (* unfreezeNode transactions.go:502-575 *)
+  Definition unfreeze_check (s : state) (txs id : N) : code :=
+    match aget id (s_nodes s) with
+    | None => CNoSuchNode                                              (* 531 *)
+    | Some n =>
+        if negb (txs =? n_ent n) then CBadEntityForNode                (* 540 *)
+        else match aget id (s_status s) with
+             | None => CNoSuchNode                                     (* 545 *)
+             | Some st => if s_epoch s <? st_freeze st then CNodeCannotBeUnfrozen else COk  (* 558 *)
+             end
+    end.
+
   Definition step (s : state) (o : op) : code * state :=
     match o with
     | LSetEntity e => (COk, with_ents s (aset (e_id e) e (s_ents s)))
@@ -449,7 +507,8 @@ Section WithParams.
             let s1 := with_claims s (padd (n_ent n, n_id n + 1) (s_claims s)) in  (* 341-362 *)
             let s2 := set_node (aget (n_id n) (s_nodes s)) n s1 in              (* 376 *)
             let s3 := with_nthr s2 (aset (n_id n) (node_kinds n) (s_nthr s)) in (* thresholds stored with the claim *)
-            (COk, fold_left resume_one (n_rts n) s3)                            (* 421-465 *)
+            let s4 := with_status s3 (reg_status s n) in                        (* 389-419 *)
+            (COk, fold_left resume_one (n_rts n) s4)                            (* 421-465 *)
         | c => (c, s)
         end
     | TEpoch e => (COk, epoch_change e s)
@@ -462,6 +521,20 @@ Section WithParams.
         match aget r (s_rts s) with                                  (* state.go:694-709 *)
         | Some rt => (COk, with_susp (with_rts s (adel r (s_rts s))) (aset r rt (s_susp s)))
         | None => (CNoSuchRuntime, s)
+        end
+    | TUnfreeze txs id =>
+        match unfreeze_check s txs id with
+        | COk =>
+            match aget id (s_status s) with
+            | Some st => (COk, with_status s (aset id (mkStatus (st_expired st) 0 (st_inelig st)) (s_status s)))
+            | None => (COk, s)
+            end
+        | c => (c, s)
+        end
+    | LFreeze id e =>
+        match aget id (s_status s) with
+        | Some st => (COk, with_status s (aset id (mkStatus (st_expired st) e (st_inelig st)) (s_status s)))
+        | None => (CNoSuchNode, s)
         end
     end.
 
@@ -520,7 +593,11 @@ Section WithParams.
     [map (fun e => b2n (has_entity_runtimes s e)) ents] ++
     map (claims_row s) ents ++
     map (runtime_row s) [1; 2; 3] ++
-    map (rt_acct_row s) [1; 2; 3].
+    map (rt_acct_row s) [1; 2; 3] ++
+    [flat_map (fun k => match aget k (s_status s) with
+                        | Some st => [k; b2n (st_expired st); st_freeze st; b2n (st_inelig st)]
+                        | None => []
+                        end) keys].
 
   Fixpoint run_obs (keys ents : list N) (ops : list op) (s : state) : list (code * list (list N)) :=
     match ops with
@@ -537,6 +614,7 @@ Definition code_n (c : code) : N :=
   | CNoSuchEntity => 4 | CNodeExpired => 5 | CNodeUpdateNotAllowed => 6
   | CEntityHasNodes => 7 | CEntityHasRuntimes => 8 | COther => 9
   | CForbidden => 10 | CRuntimeUpdateNotAllowed => 11 | CNoSuchRuntime => 12
+  | CNoSuchNode => 13 | CBadEntityForNode => 14 | CNodeCannotBeUnfrozen => 15
   end.
 Definition obs_eqb (a b : code * list (list N)) : bool :=
   (code_n (fst a) =? code_n (fst b)) && list_eqb (list_eqb N.eqb) (snd a) (snd b).
